@@ -5,7 +5,7 @@ import typed_gen as tg
 import vlib
 from props import c03 as base
 
-GEN = []
+GEN = ["GenSrcDigest"]
 TRUSTED = base.TRUSTED + [
     "tools/lua_run.py lua_wf (LuaCore's loader, Lua 5.3 reference dialect) as the definition of 'the emitted Lua loads'",
 ]
